@@ -831,19 +831,22 @@ def sortSwap (index0 index1 : Nat) : M σ Unit := fun s =>
     (do O.del index0; O.put index1 value) s
   else .ok () s
 
+/-- one iteration of the loop of arraySortQuickPartition; `c` = (cursor, cursor2) -/
+def sortPartitionStep (cmp : SortCmp) (right index : Nat) (c : Nat × Nat) : M σ (Nat × Nat) := fun s =>
+  let comparison := sortCompare O E cmp s index right
+  if comparison < 0 then
+    (do sortSwap O index c.1
+        if c.1 < c.2 then sortSwap O index c.2
+        pure (c.1 + 1, c.2 + 1)) s
+  else if comparison = 0 then
+    (do sortSwap O index c.2
+        pure (c.1, c.2 + 1)) s
+  else .ok c s
+
 /-- arraySortQuickPartition (builtin_array.go:414): returns (cursor, cursor2) -/
 def sortPartition (cmp : SortCmp) (left right pivot : Nat) : M σ (Nat × Nat) := do
   sortSwap O pivot right
-  let (cursor, cursor2) ← foldUp (fun index (c : Nat × Nat) => fun s =>
-    let comparison := sortCompare O E cmp s index right
-    if comparison < 0 then
-      (do sortSwap O index c.1
-          if c.1 < c.2 then sortSwap O index c.2
-          pure (c.1 + 1, c.2 + 1)) s
-    else if comparison = 0 then
-      (do sortSwap O index c.2
-          pure (c.1, c.2 + 1)) s
-    else .ok c s) left (right - left) (left, left)
+  let (cursor, cursor2) ← foldUp (sortPartitionStep O E cmp right) left (right - left) (left, left)
   sortSwap O cursor2 right
   pure (cursor, cursor2)
 
